@@ -253,6 +253,10 @@ fn calculate_path(
     bufs: &mut CurveBuffers,
     optimized_len: &mut f64,
 ) {
+    // Clear before the early return so that reused buffers do not leak the
+    // previous curve into an empty one.
+    bufs.path.clear();
+
     if points.is_empty() {
         return;
     }
@@ -264,7 +268,6 @@ fn calculate_path(
         ..
     } = bufs;
 
-    path.clear();
     *optimized_len = 0.0;
 
     vertices.clear();
